@@ -761,7 +761,7 @@ void QXmppJingleIq::Content::toXml(QXmlStreamWriter *writer) const
     // description
     if (!d->description.type().isEmpty() || !d->description.payloadTypes().isEmpty()) {
         writer->writeStartElement(QSL65("description"));
-        writer->writeDefaultNamespace(d->description.type());
+        writeDefaultNamespaceEscaped(writer, d->description.type());
         writeOptionalXmlAttribute(writer, u"media", d->description.media());
 
         if (d->description.ssrc()) {
@@ -789,7 +789,7 @@ void QXmppJingleIq::Content::toXml(QXmlStreamWriter *writer) const
     // transport
     if (!d->transportType.isEmpty() || !d->transportCandidates.isEmpty()) {
         writer->writeStartElement(QSL65("transport"));
-        writer->writeDefaultNamespace(d->transportType);
+        writeDefaultNamespaceEscaped(writer, d->transportType);
         writeOptionalXmlAttribute(writer, u"ufrag", d->transportUser);
         writeOptionalXmlAttribute(writer, u"pwd", d->transportPassword);
         for (const auto &candidate : d->transportCandidates) {
@@ -2103,7 +2103,7 @@ void QXmppJingleDescription::parse(const QDomElement &element)
 void QXmppJingleDescription::toXml(QXmlStreamWriter *writer) const
 {
     writer->writeStartElement(QSL65("description"));
-    writer->writeDefaultNamespace(d->type);
+    writeDefaultNamespaceEscaped(writer, d->type);
 
     writeOptionalXmlAttribute(writer, u"media", d->media);
 
